@@ -684,3 +684,4 @@ def unit_cmdpunch(twin=False):
 UNITS.append(("C05.user_punch.PUNCH_statement.one_cell_per_value_at_the_running_index", unit_cmdpunch))
 from props.c05_ext3 import UNITS as _U3; UNITS = UNITS + _U3
 from props.c05_ext4 import UNITS as _U4; UNITS = UNITS + _U4
+from props.c05_ext5 import UNITS as _U5; UNITS = UNITS + _U5
